@@ -179,8 +179,29 @@ def gen_g0(r, name):
         params, args, ret = [("k", pt)], [("a", "bool"), ("b", "bool")], "bool"
         fn = r.choice(["inc", "neg", "g"])
         use = "k" if pt == "bool" else f"(k == {r.randrange(4)})"
-        src = (f"def {name}(a: bool, k: Parameter[{pt}], b: bool) -> bool:\n    def {fn}(x: bool, y: bool) -> bool:\n        return (not x) ^ y\n"
-               f"    return {fn}(a, b) ^ {use}\n")
+        form = r.randrange(5)
+        if form == 0:
+            src = (f"def {name}(a: bool, k: Parameter[{pt}], b: bool) -> bool:\n    def {fn}(x: bool, y: bool) -> bool:\n        return (not x) ^ y\n"
+                   f"    return {fn}(a, b) ^ {use}\n")
+        elif form == 1:
+            # the inner function's own argument is NAMED like the outer parameter (and gets another value)
+            src = (f"def {name}(a: bool, k: Parameter[{pt}], b: bool) -> bool:\n    def {fn}(k: bool, y: bool) -> bool:\n        return (not k) ^ y\n"
+                   f"    return {fn}(a, b) ^ {use}\n")
+        elif form == 2:
+            # ... or a local of the inner function is
+            src = (f"def {name}(a: bool, k: Parameter[{pt}], b: bool) -> bool:\n    def {fn}(x: bool, y: bool) -> bool:\n        k = x and y\n        return k ^ x\n"
+                   f"    return {fn}(a, b) ^ {use}\n")
+        elif form == 3:
+            params, args, ret = [("k", "Qint[2]")], [("x", "Qint[2]")], "Qint[2]"
+            src = (f"def {name}(k: Parameter[Qint[2]], x: Qint[2]) -> Qint[2]:\n    def {fn}(k: Qint[2]) -> Qint[2]:\n        return k + 1\n"
+                   f"    return {fn}(x) ^ k\n")
+        else:
+            # the parameter handed to the inner function, whose argument has another name / the same name
+            an = r.choice(["y", "k"])
+            pt = "bool"
+            params = [("k", "bool")]
+            src = (f"def {name}(a: bool, k: Parameter[bool], b: bool) -> bool:\n    def {fn}(x: bool, {an}: bool) -> bool:\n        return (not x) ^ {an}\n"
+                   f"    return {fn}(a, k) ^ {fn}(b, a)\n")
     elif t == "multi_assign":
         # simultaneous assignment whose right-hand sides read the targets, in a loop over a list parameter or not
         form = r.randrange(4)
